@@ -257,6 +257,10 @@ pub enum Ev
     Probe{ readings: Readings, exclusive: bool },
     PayloadDrop(u32),
     CanaryDrop(SysUid),
+    /// the harness made an exclusive system (closure) for this uid and is about to hand it to the framework
+    ExclSystemMade(SysUid),
+    /// the parameter state of some exclusive harness system was constructed (`FromWorld` of a `Local` probe)
+    ExclStateCreated,
     Quiescent{ phase: u8, snap: Snap, facts: Facts },
     Hook(Hook),
     Panic(String),
